@@ -61,6 +61,18 @@ def gen_group_case(rng, safe):
             if k == keyu:
                 if broken and rng.random() < 0.2:
                     continue
+                if broken and rng.random() < 0.25:
+                    # the key is there but has no text: Undefined (only touched), an array or an object -> GroupBy fails
+                    r = rng.random()
+                    if r < 0.4:
+                        ops.append("2,%s,%s,7,%d" % (enc_target(t1), enc_str(k), rng.randrange(60)))
+                    elif r < 0.7:
+                        ops.append("2,%s,%s,0,0" % (enc_target(t1), enc_str(k)))
+                        ops.append("4,%s,3,%d,0" % (enc_target((1, [("K", k)])), rng.randrange(9)))
+                    else:
+                        ops.append("2,%s,%s,0,0" % (enc_target(t1), enc_str(k)))
+                        ops.append("2,%s,%s,3,1,0" % (enc_target((1, [("K", k)])), enc_str([110])))
+                    continue
                 ops.append("2,%s,%s,%s,%d" % (enc_target(t1), enc_str(k), key_value(rng, safe), rng.randrange(60)))
             else:
                 r = rng.random()
